@@ -899,9 +899,12 @@ func (fc *funcContext) delegatedCall(expr *ast.CallExpr) (callable *expression, 
 	}
 
 	if fun, ok := expr.Fun.(*ast.Ident); ok && isBuiltin && fun.Name == "recover" {
-		// `defer recover()` / `go recover()`: recover is not called by a deferred
-		// function here, so it returns nil and does not stop a panic.
-		return fc.formatExpr("function() { }"), fc.formatExpr("[]")
+		// `defer recover()` / `go recover()`: the proxy lambda must be invisible to
+		// recover()'s call depth check (like $methodExpr), so that recover() is judged
+		// as called by whatever runs the deferred call: the panicking sequence itself
+		// (recover returns nil, the panic continues) or the epilogue of a function,
+		// which recovers if that function is a deferred function run by the panic.
+		return fc.formatExpr("function() { $stackDepthOffset--; try { $recover(); } finally { $stackDepthOffset++; } }"), fc.formatExpr("[]")
 	}
 
 	// Since some builtins or js.Object methods may not transpile into
